@@ -29,11 +29,54 @@ enum Ty {
     ProbeB,
     Builtin,
     Nested(usize),
+    /// a derived set of the BASE family (module `single` / `multi`), named by path from a `_b` module
+    NestedBase(usize),
 }
 
 struct Shape {
     fields: Vec<(String, Ty)>,
     depth: usize,
+}
+
+/// Second family (`single_b` / `multi_b`): struct names S0.. collide with the base family's on purpose, and
+/// members may be sets of the base family named by path (`super::single::S7`) whose last segment equals the
+/// name of an earlier set of this module.
+fn gen_shapes_b(seed: u64, n: usize, base_depth0: &[usize]) -> Vec<Shape> {
+    let mut r = Lcg(seed);
+    let mut shapes: Vec<Shape> = vec![];
+    for k in 0..n {
+        let nf = 1 + r.below(6);
+        let mut fields = vec![];
+        let mut depth = 0;
+        for i in 0..nf {
+            let c = r.below(10);
+            let ty = if c < 3 {
+                Ty::ProbeA
+            } else if c < 6 {
+                Ty::ProbeB
+            } else if c < 8 && k > 0 {
+                // a base-family set whose index is below k: this module already declared a set of that name
+                let cands: Vec<usize> = base_depth0.iter().cloned().filter(|j| *j < k).collect();
+                if cands.is_empty() {
+                    Ty::ProbeA
+                } else {
+                    depth = depth.max(1);
+                    Ty::NestedBase(cands[r.below(cands.len())])
+                }
+            } else {
+                let cands: Vec<usize> = shapes.iter().enumerate().filter(|(_, s)| s.depth == 0).map(|(j, _)| j).collect();
+                if cands.is_empty() {
+                    Ty::ProbeB
+                } else {
+                    depth = depth.max(1);
+                    Ty::Nested(cands[r.below(cands.len())])
+                }
+            };
+            fields.push((format!("{}{}", ["m", "a", "_z", "k"][r.below(4)], i), ty));
+        }
+        shapes.push(Shape { fields, depth });
+    }
+    shapes
 }
 
 fn gen_shapes(seed: u64, fixed: bool, extra: usize) -> Vec<Shape> {
@@ -134,14 +177,15 @@ fn gen_shapes(seed: u64, fixed: bool, extra: usize) -> Vec<Shape> {
     shapes
 }
 
-fn emit(out: &mut String, module: &str, market: bool, shapes: &[Shape]) {
+fn emit(out: &mut String, module: &str, base: &str, market: bool, shapes: &[Shape], base_shapes: &[Shape]) {
     let (derive, agent_trait, set_trait, env_ty, gen_sig) = if market {
         ("MarketAgentSet", "MarketAgent", "MarketAgentSet", "MarketEnv<M, N>", "<R: RngCore, const M: usize, const N: usize>")
     } else {
         ("AgentSet", "Agent", "AgentSet", "Env", "<R: RngCore>")
     };
     writeln!(out, "#[allow(non_snake_case, dead_code, unused_imports, clippy::all)]\npub mod {} {{", module).unwrap();
-    writeln!(out, "    use super::probes_{}::*;", module).unwrap();
+    writeln!(out, "    use super::probes_{}::*;", base).unwrap();
+    let second = module != base;
     writeln!(out, "    use bourse_de::agents::{{{}, {}}};", agent_trait, set_trait).unwrap();
     writeln!(out, "    use bourse_de::{{Env, MarketEnv}};\n    use rand::RngCore;").unwrap();
     for (k, s) in shapes.iter().enumerate() {
@@ -152,6 +196,7 @@ fn emit(out: &mut String, module: &str, market: bool, shapes: &[Shape]) {
                 Ty::ProbeB => "ProbeB".to_string(),
                 Ty::Builtin => "Builtin".to_string(),
                 Ty::Nested(j) => format!("S{}", j),
+                Ty::NestedBase(j) => format!("super::{}::S{}", base, j),
             };
             // some fields carry doc comments / attributes (they are attributes to the derive macro)
             let h = nm.bytes().fold(k as u64 * 31 + 7, |a, b| a.wrapping_mul(131).wrapping_add(b as u64));
@@ -167,7 +212,9 @@ fn emit(out: &mut String, module: &str, market: bool, shapes: &[Shape]) {
                 6 if h % 2 == 0 => writeln!(out, "        #[cfg_attr(all(), allow(dead_code))]\n        #[clippy::skip]").unwrap(),
                 _ => {}
             }
-            let vis = ["pub ", "pub(crate) ", "", "pub(super) "][(h / 11 % 4) as usize];
+            // every fifth shape of the base family and every second one of the second family is all-`pub`
+            let all_pub = if second { k % 2 == 0 } else { k % 5 == 0 };
+            let vis = if all_pub { "pub " } else { ["pub ", "pub(crate) ", "", "pub(super) "][(h / 11 % 4) as usize] };
             writeln!(out, "        {}{}: {},", vis, nm, t).unwrap();
         }
         writeln!(out, "    }}").unwrap();
@@ -179,6 +226,7 @@ fn emit(out: &mut String, module: &str, market: bool, shapes: &[Shape]) {
                 Ty::ProbeB => "ProbeB::new(tag)".to_string(),
                 Ty::Builtin => "new_builtin(tag)".to_string(),
                 Ty::Nested(j) => format!("S{}::build(tag)", j),
+                Ty::NestedBase(j) => format!("super::{}::S{}::build(tag)", base, j),
             };
             writeln!(out, "                {}: {},", nm, e).unwrap();
         }
@@ -187,7 +235,7 @@ fn emit(out: &mut String, module: &str, market: bool, shapes: &[Shape]) {
         writeln!(out, "        pub fn manual{}(&mut self, env: &mut {}, rng: &mut R) {{", gen_sig, env_ty).unwrap();
         for (nm, ty) in s.fields.iter() {
             match ty {
-                Ty::Nested(_) => writeln!(out, "            self.{}.manual(env, rng);", nm).unwrap(),
+                Ty::Nested(_) | Ty::NestedBase(_) => writeln!(out, "            self.{}.manual(env, rng);", nm).unwrap(),
                 Ty::Builtin => writeln!(out, "            builtin_update(&mut self.{}, env, rng);", nm).unwrap(),
                 _ => writeln!(out, "            {}::update(&mut self.{}, env, rng);", agent_trait, nm).unwrap(),
             }
@@ -198,24 +246,25 @@ fn emit(out: &mut String, module: &str, market: bool, shapes: &[Shape]) {
     writeln!(out, "    pub const N_SHAPES: usize = {};", shapes.len()).unwrap();
     writeln!(out, "    pub fn run_shape(idx: usize, derived: bool, seed: u64, calls: usize) -> super::ShapeRun {{\n        match idx {{").unwrap();
     for k in 0..shapes.len() {
-        writeln!(out, "            {} => super::drive_{}!(S{}, derived, seed, calls),", k, module, k).unwrap();
+        writeln!(out, "            {} => super::drive_{}!(S{}, derived, seed, calls),", k, base, k).unwrap();
     }
     writeln!(out, "            _ => panic!(\"harness: no such shape\"),\n        }}\n    }}").unwrap();
     // descriptions
     writeln!(out, "    /// (fields, leaf agents, has repeated type, has nested set, has built-in agent, names in lexicographic order)").unwrap();
     writeln!(out, "    pub const INFO: [(usize, usize, bool, bool, bool, bool); {}] = [", shapes.len()).unwrap();
     for s in shapes.iter() {
-        fn leaves(shapes: &[Shape], s: &Shape) -> usize {
-            s.fields.iter().map(|(_, t)| match t { Ty::Nested(j) => leaves(shapes, &shapes[*j]), _ => 1 }).sum()
+        fn leaves(shapes: &[Shape], base: &[Shape], s: &Shape) -> usize {
+            s.fields.iter().map(|(_, t)| match t { Ty::Nested(j) => leaves(shapes, base, &shapes[*j]), Ty::NestedBase(j) => leaves(base, base, &base[*j]), _ => 1 }).sum()
         }
         let a = s.fields.iter().filter(|(_, t)| matches!(t, Ty::ProbeA)).count();
         let b = s.fields.iter().filter(|(_, t)| matches!(t, Ty::ProbeB)).count();
-        let nested = s.fields.iter().any(|(_, t)| matches!(t, Ty::Nested(_)));
+        let nested = s.fields.iter().any(|(_, t)| matches!(t, Ty::Nested(_) | Ty::NestedBase(_)));
         let builtin = s.fields.iter().any(|(_, t)| matches!(t, Ty::Builtin));
         let names: Vec<String> = s.fields.iter().map(|(n, _)| n.trim_start_matches("r#").to_string()).collect();
         let mut sorted = names.clone();
         sorted.sort();
-        writeln!(out, "        ({}, {}, {}, {}, {}, {}),", s.fields.len(), leaves(shapes, s), a >= 2 || b >= 2, nested, builtin, sorted == names).unwrap();
+        writeln!(out, "        ({}, {}, {}, {}, {}, {}),", s.fields.len(), leaves(shapes, base_shapes, s), a >= 2 || b >= 2, nested, builtin, sorted == names).unwrap();
+        let _ = base_shapes;
     }
     writeln!(out, "    ];\n}}").unwrap();
 }
@@ -225,8 +274,35 @@ fn main() {
     let shapes_single = gen_shapes(20, true, 96);
     let shapes_multi = gen_shapes(21, true, 96);
     let mut out = String::new();
-    emit(&mut out, "single", false, &shapes_single);
-    emit(&mut out, "multi", true, &shapes_multi);
+    let with_shapes = std::env::var("CARGO_FEATURE_SHAPES").is_ok();
+    let with_b = std::env::var("CARGO_FEATURE_SHAPES_B").is_ok();
+    let stub = |out: &mut String, module: &str, alias: Option<&str>| match alias {
+        Some(a) => writeln!(out, "pub mod {} {{ pub use super::{}::{{run_shape, INFO, N_SHAPES}}; }}", module, a).unwrap(),
+        None => writeln!(out, "pub mod {} {{ pub const N_SHAPES: usize = 0; pub const INFO: [(usize, usize, bool, bool, bool, bool); 0] = []; pub fn run_shape(_: usize, _: bool, _: u64, _: usize) -> super::ShapeRun {{ panic!(\"harness: struct shapes are switched off\") }} }}", module).unwrap(),
+    };
+    if !with_shapes {
+        for m in ["single", "multi", "single_b", "multi_b"] {
+            stub(&mut out, m, None);
+        }
+        let dir = std::env::var("OUT_DIR").unwrap();
+        std::fs::write(std::path::Path::new(&dir).join("shapes.rs"), out).unwrap();
+        return;
+    }
+    emit(&mut out, "single", "single", false, &shapes_single, &shapes_single);
+    emit(&mut out, "multi", "multi", true, &shapes_multi, &shapes_multi);
+    if !with_b {
+        stub(&mut out, "single_b", Some("single"));
+        stub(&mut out, "multi_b", Some("multi"));
+        let dir = std::env::var("OUT_DIR").unwrap();
+        std::fs::write(std::path::Path::new(&dir).join("shapes.rs"), out).unwrap();
+        return;
+    }
+    // second family: colliding struct names, members named by path into the base family
+    let d0 = |v: &[Shape]| -> Vec<usize> { v.iter().enumerate().filter(|(_, s)| s.depth == 0 && s.fields.len() >= 2).map(|(k, _)| k).collect() };
+    let b_single = gen_shapes_b(22, 40, &d0(&shapes_single));
+    let b_multi = gen_shapes_b(23, 40, &d0(&shapes_multi));
+    emit(&mut out, "single_b", "single", false, &b_single, &shapes_single);
+    emit(&mut out, "multi_b", "multi", true, &b_multi, &shapes_multi);
     let dir = std::env::var("OUT_DIR").unwrap();
     std::fs::write(std::path::Path::new(&dir).join("shapes.rs"), out).unwrap();
 }
